@@ -132,6 +132,7 @@ def finalize(agg, tier):
     for n in ENCODER_COUNTERS:
         need(n)
     need("encoder_probes")
+    need("explicit_wrapper_mutations")
     for n in ("unpad_pkcs7_ref_accepts", "unpad_pkcs7_ref_refuses", "unpad_x923_ref_accepts", "unpad_x923_ref_refuses",
               "unpad_iso7816_ref_accepts", "unpad_iso7816_ref_refuses", "rfc1751_ref_accepts", "rfc1751_ref_refuses", "hostile_cost_inputs_without_passphrase"):
         need(n)
